@@ -184,6 +184,13 @@ func DrawModule(r *Rng, cfg SpecConfig) *ModuleSpec {
 		}
 		p.DocTags = drawTags(r, cfg.GenNames, cfg.PPkgTags, cfg.AllowFalse)
 		drawDecls(r, cfg, p, pi)
+		if len(p.Files) > 1 && r.P(0.3) {
+			for _, t := range p.DocTags {
+				if r.P(0.7) {
+					p.DupDocTags = append(p.DupDocTags, t)
+				}
+			}
+		}
 		m.Pkgs = append(m.Pkgs, p)
 	}
 	if r.P(cfg.PPre) {
